@@ -115,6 +115,21 @@ def check(case, rec):
     with libcall("ccube.interactions"):
         inter = ccube(idxs, shape_arg).interactions()
     same(canon(inter, "interactions()"), "interactions()")
+    # a callback may itself look at the cube (a custom aggregate consulting interactions()): the outer walk
+    # and the nested one must both be complete
+    with libcall("ccube.walk with a callback that calls interactions()"):
+        cube = ccube(idxs, shape_arg)
+        outer, nested = [], []
+
+        def cb(c, r):
+            outer.append((c, r.copy()))
+            if len(outer) == 1 + case["N"] % 3:
+                nested.extend(cube.interactions())
+
+        cube.walk(cb)
+    same(canon(outer, "walk(reentrant callback)"), "walk(reentrant callback)")
+    if nested:
+        same(canon(nested, "interactions() from inside a callback"), "interactions() nested in a walk")
     rec.note("nd=%d" % len(dense), "delivered=%s" % ("0" if not want else "1+"),
              "rowids=%s" % {False: "plain", True: "readonly"}.get(case.get("readonly", False), "strided"))
     if nhollow:
